@@ -62,8 +62,11 @@ FullShape == ShapeOf(EffList)
 OutShape == IF proj = NoProj THEN FullShape ELSE proj
 M == [j \in 1..Len(OutShape) |-> OutShape[j] - 1]      \* chromosomes per axis of the output
 
+(* A record sits at contig:position.  By default record r is at position r (contig changes after the second *)
+(* record); a row may carry its own position (field pos), so that histories can contain records at EQUAL   *)
+(* positions - split multiallelic sites, or the same position on two contigs.                               *)
 Contig(r) == IF r <= 2 THEN "chr1" ELSE "chr2"
-Pos(r) == r
+Pos(r) == IF "pos" \in DOMAIN recs[r] THEN recs[r].pos ELSE r
 SiteName(r) == Contig(r) \o ":" \o ToString(Pos(r))
 
 (******************************* Build *******************************)
